@@ -70,7 +70,7 @@ def run(tier, replay=None):
             exe = src[:-3]
             ok2, d2 = deps.compile(src, exe)
             if ok2:
-                p = rsprog.run_prog(exe); os.unlink(exe); ran += 1
+                p = rsprog.run_prog(exe); vlib.discard(exe); ran += 1
                 if p.returncode != 0:
                     rp = c.replay_file("generic_runtime.rs", open(src).read())
                     c.violation("runtime", "type_info() of an accepted generic definition panics: %s" % p.stderr[-300:], rp)
